@@ -921,4 +921,40 @@ theorem C04_abel_mirror (P : M K) (mc c c' : Nat) (hc : c < 2 * mc) (hc' : c' < 
 example : (List.range 3).map (abelEval (α := Int) (fun i j => [[1, 2], [0, 3]].getD i [] |>.getD j 0) 1 3 1 2
     (fun j => [5, 7, 11].getD j 0)) = [29, 7, 47] := by decide
 
+
+/-! ### constructor metadata of the convolution classes -/
+
+/-- dtype promotion of `CircularConvolve` / `Convolve` / `ConvolveByX` (`result_type(filter, input)`): complex exactly
+    when filter or input is, double precision exactly when one of them is; commutative, idempotent, and a real output
+    (`real = True`, the `.real` part is returned) exactly for real filter AND real input. -/
+theorem C04_conv_dtype (a b : DT) :
+    (resultType a b).cx = (a.cx || b.cx) ∧ (resultType a b).wide = (a.wide || b.wide)
+    ∧ resultType a b = resultType b a ∧ resultType a a = a
+    ∧ (∀ hs is nd out odt real, circInit hs is nd false false a b = some (out, odt, real) →
+        odt = resultType a b ∧ (real = true ↔ a.cx = false ∧ b.cx = false)) := by
+  refine ⟨by cases a <;> cases b <;> rfl, by cases a <;> cases b <;> rfl, by cases a <;> cases b <;> rfl,
+    by cases a <;> rfl, ?_⟩
+  intro hs is nd out odt real h
+  simp only [circInit, Bool.false_and, Bool.false_eq_true, if_false] at h
+  split at h
+  · cases h
+  · simp only [Option.some.injEq, Prod.mk.injEq] at h
+    obtain ⟨_, h2, h3⟩ := h
+    subst h2 h3
+    refine ⟨rfl, ?_⟩
+    cases a <;> cases b <;> simp [resultType, DT.mk, DT.cx, DT.wide]
+
+/-- error cases of the constructors: `h_center` with `h_is_dft` is rejected whatever the shapes; `Convolve` rejects a
+    filter of the wrong rank and an unknown mode, and accepts the three documented modes for equal ranks. -/
+theorem C04_conv_init_errors (hs is : List Nat) (nd : Option Nat) (a b : DT) (k : Nat) (mode : String) :
+    circInit hs is nd true true a b = none
+    ∧ (∀ j, j ≠ k → convInit j k mode a b = none)
+    ∧ (mode = "full" ∨ mode = "valid" ∨ mode = "same" → convInit k k mode a b = some (resultType b a)) := by
+  refine ⟨by simp [circInit], fun j hj => by simp [convInit, hj], fun h => ?_⟩
+  rcases h with rfl | rfl | rfl <;> simp [convInit]
+
+example : circInit [3, 2] [4] (some 1) false false .f64 .f64 = some ([3, 4], .f64, true) := by decide
+example : circInit [2, 3] [3, 4] (some 1) false true .c128 .f64 = none := by decide   -- (2,4) vs (3,4) do not broadcast
+example : broadcastShapes [2, 1, 4] [3, 1] = some [2, 3, 4] := by decide
+
 end Scico.Props.C04
